@@ -38,7 +38,7 @@ ObsLen(lens, nm) ==
     THEN (lens[CHOOSE i \in DOMAIN lens : lens[i].name = nm]).len ELSE 0
 
 JudgeParse(e) ==
-    IF ~e.ok THEN Drift("parser_rejected_block")
+    IF ~Accepts(e.block) THEN Drift("own_name_accepted")     \* the module is judged like any other
     ELSE IF \/ ~SameEqs(e.endo, parser'.endo)
             \/ e.lagged # parser'.lagged
             \/ e.exos # parser'.exos
@@ -62,6 +62,8 @@ ObsClosed(e) ==
 JudgeFile(e) ==
     IF ~e.ok THEN Prop("C20_ImportAndRun")
     ELSE IF ~ObsClosed(e) THEN Drift("C20_Closed")
+    ELSE IF ~(e.loopAfterPack \/ Range(NamesOf(e.pack)) \cap LoopNames = {}) THEN Drift("C20_LoopStateOwn")
+    ELSE IF Range(NamesOf(e.pack)) \cap ModuleOwnNames # {} THEN Drift("C20_NoNameCapture")
     ELSE IF \/ e.decl # NamesOf(file'.decl)
             \/ e.pack # file'.pack
             \/ e.orig # file'.orig
@@ -69,6 +71,7 @@ JudgeFile(e) ==
             \/ e.iterBinds # file'.iterBinds
             \/ ~SameReads(e.iterReads, file'.iterReads)
             \/ e.unpack # file'.unpack
+            \/ e.loopAfterPack # file'.loopAfterPack
             \/ e.varList # file'.varList
          THEN Drift("file_sections")
     ELSE Ok
@@ -114,9 +117,12 @@ TraceNext ==
     /\ l <= Len(Log)
     /\ l' = l + 1
     /\ LET e == Log[l] IN
-       \/ /\ e.ev = "ParseBlock" /\ phase \in PhaseFor(e.ev)
-          /\ ParseBlock(e.block)
+       \/ /\ e.ev = "ParseBlock" /\ phase \in PhaseFor(e.ev) /\ e.ok
+          /\ ParseAccept(e.block)
           /\ verdict' = Worse(verdict, JudgeParse(e))
+       \/ /\ e.ev = "ParseBlock" /\ phase \in PhaseFor(e.ev) /\ ~e.ok      \* the constructor raised
+          /\ ParseReject(e.block)
+          /\ verdict' = Worse(verdict, IF Accepts(e.block) THEN Drift("parser_rejected_block") ELSE Ok)
        \/ /\ e.ev = "GenerateEquations" /\ phase \in PhaseFor(e.ev)
           /\ GenerateEquations
           /\ verdict' = Worse(verdict, JudgeGenEq(e))
